@@ -5,6 +5,21 @@ ROOT = os.path.dirname(os.path.dirname(os.path.abspath(__file__)))
 ALL = ["C%02d" % i for i in range(1, 20)]
 TB = "TLC 1.8 + CommunityModules; the TLA+ value parser/printer; numpy; the evaluator ev.py (re-calibrated against TLC's exact values on every run)"
 CHECKS = {
+ "C02": dict(
+   level="model_checking", design="DESIGN.md section 5 C02",
+   text="LwCircuit identifies modes by identity (lines) instead of position, so its Add action is the property's own wording; TLC checks AncillaPrivate, frames, unitarity and compositional = flattened semantics on every program of the marked-template scopes (all herald (in,out) pairs, both declaration orders, photon numbers 0/1, all start modes, grouped or not, nested), and the programs (TLC dump and TLC -simulate behaviours) are replayed into lightworks and compared modulo the herald-preserving bijection of hidden modes; recorded random histories are validated by the LwCircuitTrace specification.",
+   note="Exhaustive within <=4-mode parents, <=3 additions, <=2 heralds per sub-circuit, nesting depth 2; larger histories (up to 9 modes, 14 calls) only as recorded traces. " + TB,
+   technique="TLA+ model (LwCircuit, line-identity Add) checked by TLC; dump / simulate behaviours replayed into the implementation; recorded traces validated by LwCircuitTrace"),
+ "C08": dict(
+   level="model_checking", design="DESIGN.md section 5 C08",
+   text="Every LwCircuit action has an explicit frame (FrameProp: a call changes at most its target; RejectFrame: a rejected call changes nothing), checked by TLC on reuse-heavy scopes (same sub-circuit added repeatedly, edited afterwards, every invalid-argument class on parents with ancillas); in every replay and every recorded trace the observable state of EVERY live object is compared before/after EVERY call.",
+   note="Observable state = (n_modes, input_modes, heralds, U_full to 1e-9). Frames of emulator / tomography / interferometer / display calls are checked inside the runs of those properties' checks. " + TB,
+   technique="TLC action properties (frames) on LwCircuit; replay + trace validation comparing all live objects around every call"),
+ "C09": dict(
+   level="model_checking", design="DESIGN.md section 5 C09",
+   text="Rewrites are contract actions of LwCircuit (transformation, heralds, input size preserved; no group after unpack; copies independent), checked by TLC with exact matrices; dumped and simulated programs with rewrites followed by further edits are replayed, and recorded rewrite-heavy histories are validated by LwCircuitTrace including the structure postconditions (no group, no non-adjacent beam splitter also inside groups, component count not grown).",
+   note="Contract-style: a different compression algorithm is not an alarm. unpack_groups of a circuit with ancillas is bound to the recorded placement of the former ancillas. " + TB,
+   technique="TLC on LwCircuit rewrite actions (RewriteProp, NoGroupAfterUnpack, CopyProp); replay; trace validation with recorded structure"),
  "C01": dict(
    level="model_checking", design="DESIGN.md section 5 C01",
    text="TLC exhaustively explores every construction program of LwCircuit within the stated bounds (all component kinds, every ordered mode pair, both conventions, boundary values, rejected calls) carrying the exact transfer matrix in Z[i,sqrt2][1/2]; unitarity, dimension and flattened-vs-compositional semantics are invariants in every state; every dumped program is then replayed into the real Circuit and U, U_full, n_modes are compared with TLC's exact values.",
